@@ -57,7 +57,10 @@ def annotate(raw, out):
         for line in f:
             line = line.strip()
             if line:
-                evs.append(json.loads(line))
+                try:
+                    evs.append(json.loads(line))
+                except ValueError:
+                    break      # truncated tail of a crashed driver
     nxt = {}
     for i in range(len(evs) - 1, -1, -1):
         ev = evs[i]
